@@ -14,6 +14,8 @@ class Builder:
 
     def __init__(self, rng, mode="P", rfc=True, type="I", tls=False, resume=False, tlsver="12", verify="trusted", ip6=False):
         self.rng = rng
+        if ip6 and mode == "P" and not rfc:
+            rfc = True               # PASV cannot name an IPv6 endpoint: use EPSV on IPv6 control connections
         self.cfg = cfg(mode, rfc, type, tls, resume, tlsver, verify)
         self.mode, self.rfc, self.type, self.tls = mode, rfc, type, tls
         self.ip6 = ip6
